@@ -17,7 +17,7 @@ import heapq
 import itertools
 from typing import Any
 
-from kopf._cogs.clients import auth
+from kopf._cogs.clients import auth, watching
 from kopf._core.reactor import queueing
 
 from kv.explorer import Env, Scenario, UserAction, Violation, execute
@@ -27,6 +27,23 @@ from kv.world import KEX, REPLICASETS
 
 IDLE = 1.0
 EXIT = 2.0
+_INFINITE_WATCH = watching.infinite_watch     # the real one; every execution wraps it afresh (never a wrapper of a wrapper)
+
+
+def _observed_watch(env: Env) -> Any:
+    """The real watch client, with one observation added: which events the WATCHER has taken from it. The log entry is written
+    right before the `yield`, i.e. in the very step in which the consumer's `async for` receives the event (no loop step in
+    between, no change of the schedule). An event the watcher has taken is the watcher's to process, cancellation or not."""
+    async def infinite_watch(**kwargs: Any) -> Any:
+        async for raw_event in _INFINITE_WATCH(**kwargs):
+            obj = raw_event.get('object') if isinstance(raw_event, dict) else None     # bookmarks are not events
+            if obj and 'spec' in obj:
+                seq = obj['spec']['seq']
+                if raw_event.get('type') == 'DELETED':
+                    seq = env.memo['deleted_rv'][obj['metadata']['resourceVersion']]
+                env.log('read', seq=seq)
+            yield raw_event
+    return infinite_watch
 
 
 def references(events: list[tuple[float, str, float]], limit: int | None, cancel_at: float | None
@@ -209,6 +226,8 @@ class QueueingScenario(Scenario):
                 running.discard(seq)
             return f'never-{seq}' if patched else None
 
+        watching.infinite_watch = _observed_watch(env)   # type: ignore[assignment]
+
         async def main() -> None:
             auth.vault_var.set(make_vault(env.world))
             before = asyncio.all_tasks()
@@ -296,6 +315,7 @@ class QueueingScenario(Scenario):
         arrivals: dict[int, float] = {}
         cancel_t = None
         optional: list[int] = []      # emitted in the very instant of the cancellation, before it
+        taken: set[int] = set()       # events the watcher has taken from the watch client
         for t, k, p in env.obs:
             if k == 'proc-start':
                 if p['seq'] in starts:
@@ -308,10 +328,12 @@ class QueueingScenario(Scenario):
                 out.append(self.viol(env, 'overlap', f"events of one object processed concurrently: {p}", clause='serial'))
             elif k == 'emit' and cancel_t is None:
                 arrivals[p['seq']] = t
+            elif k == 'read':
+                taken.add(p['seq'])
             elif k == 'cancel' and cancel_t is None:
                 cancel_t = t
         if cancel_t is not None:
-            optional = [i for i in sorted(arrivals) if arrivals[i] == cancel_t]
+            optional = [i for i in sorted(arrivals) if arrivals[i] == cancel_t and i not in taken]
         if self.limit is not None and env.memo.get('maxconc', 0) > self.limit:
             out.append(self.viol(env, 'limit-exceeded', f"{env.memo['maxconc']} concurrent > limit {self.limit}", clause='limit'))
         for t, k, p in env.obs:
@@ -321,7 +343,8 @@ class QueueingScenario(Scenario):
                 out.append(self.viol(env, 'watcher-error', f"watcher raised {p.get('error')}", clause='shutdown'))
         # Exact agreement with one of the legitimate reference outcomes. Events put on the wire in the
         # very instant of the cancellation may or may not have been read by the watcher yet: the stream
-        # is FIFO, so any suffix of them may be missing.
+        # is FIFO, so any suffix of them may be missing. What the watcher HAS taken from the watch client
+        # ('read', logged in the step in which its `async for` receives the event) is never optional.
         best: list[Violation] | None = None
         for drop in range(len(optional) + 1):
             delivered = [i for i in sorted(arrivals) if i not in optional[len(optional) - drop:]]
